@@ -53,11 +53,25 @@ def tsan(ctx):
     env = dict(os.environ, OMP_TOOL_LIBRARIES="/usr/lib/llvm-14/lib/libarcher.so", OMP_NUM_THREADS="4", VERIF_SEED=str(ctx.seed),
                TSAN_OPTIONS="halt_on_error=0 report_signal_unsafe=0")
     reports = 0
+    runtime_internal = 0
     for args in (["ops", "2", "17", "32"], ["solve", "2"]):
         r = subprocess.run([h, *args], env=env, capture_output=True, text=True)
-        # keep only reports with a frame in /repo (libomp itself is not instrumented)
+        # libomp itself is not instrumented: its own mutexes show up as "races" between pthread_mutex_init and
+        # pthread_mutex_lock called from libomp.so (both access stacks have libomp.so in frames #0/#1).  Such reports are
+        # runtime internals; a report counts when at least one of the two racing accesses is made by compiled user code
+        # (/repo or the harness) and not from inside libomp.  [first filter "any frame in /repo" was a false alarm, DESIGN R.5]
         for blk in r.stderr.split("WARNING: ThreadSanitizer: data race")[1:]:
-            if "/repo/" in blk.split("SUMMARY")[0]:
+            body = blk.split("SUMMARY")[0]
+            sections = [x for x in re.split(r"\n\s*\n", body) if re.search(r"#0 ", x)]
+            access = sections[:2]
+            def internal(sec):
+                frames = [l for l in sec.splitlines() if re.match(r"\s*#[01] ", l)]
+                return any("libomp.so" in l for l in frames)
+            if access and all(internal(a) for a in access):
+                runtime_internal += 1
+                continue
+            if "/repo/" in body or "/verif/harness" in body:
                 reports += 1
                 ctx.failing.append({"stage": "tsan " + " ".join(args), "what": "ORACLE C11 ThreadSanitizer data race: " + re.sub(r"\s+", " ", blk[:600]), "seed": ctx.seed})
     ctx.cov["tsan_reports_in_repo_frames"] = reports
+    ctx.cov["tsan_reports_inside_libomp_discarded"] = runtime_internal
